@@ -189,6 +189,26 @@ ClrHooks == {
   [id |-> "h7", rets |-> {}, raises |-> FALSE] }
 NamesClr == <<"constructor", "p", "q", "value", "x">>
 
+------------------------------------------------------------------------------
+(* C06: serialisation.  names that are suffixes of one another / share a last component *)
+SerA == [ Base EXCEPT !.sel = <<"m","f">>, !.pos = <<"p","q">>, !.npd = 2, !.dflt = {<<"p", D("p")>>, <<"q", D("q")>>} ]
+SerB == [ Base EXCEPT !.sel = <<"n","f">>, !.pos = <<"p">>, !.npd = 1, !.dflt = {<<"p", D("p")>>}, !.api = "external" ]
+SerC == [ Base EXCEPT !.sel = <<"n","m","f">>, !.kind = "cls", !.pos = <<"p">>, !.npd = 1, !.dflt = {<<"p", D("p")>>}, !.api = "register" ]
+SerD == [ Base EXCEPT !.sel = <<"x","Gee">>, !.pos = <<"p","q">>, !.npd = 2, !.vk = TRUE, !.dflt = {<<"p", D("p")>>, <<"q", D("q")>>} ]
+SerE == [ Base EXCEPT !.sel = <<"aa","gee">>, !.pos = <<"p">>, !.npd = 1, !.dflt = {<<"p", D("p")>>} ]
+SerConfs == {SerA, SerB, SerC, SerD, SerE, GinMacro}
+SerRegs == { {SerA, SerB, SerC, SerD, SerE, GinMacro}, {SerA, SerD, GinMacro}, {SerB, SerC, SerE, GinMacro} }
+SerVals == { L1, L2, <<"lit","3">>, N1, <<"nonlit","n2">>, R(<<"x","Gee">>, <<>>, "call"), R(<<"x","Gee">>, <<"a","b">>, "bare"),
+             Pct(<<"W">>), <<"list", <<L1, <<"dict", << <<L2, <<"tuple", <<R(<<"x","Gee">>, <<>>, "call")>>>>>> >>>>>>>>,
+             <<"list", <<L1, N1>>>>, <<"tuple", <<>>>>, <<"dict", <<>>>> }
+SerFilter(sc, c, v) ==
+  \* a reference can only be written to a registered name
+  /\ \A r \in Flatten(v) : Tag(r) = "ref" => \E t \in reg : t.sel = r[2]
+  /\ \/ (c.sel # <<"gin","macro">> /\ c.sel # <<"x","Gee">>)
+     \/ (c.sel = <<"x","Gee">> /\ v \in {L1, L2, N1})
+     \/ (c.sel = <<"gin","macro">> /\ v \in {L1, L2, R(<<"x","Gee">>, <<>>, "call")} /\ Len(sc) = 1)
+NamesSer == <<"p", "q", "value", "z">>
+
 \* C07's replay clause speaks about a fixed configuration followed by calls
 BindsThenCalls == (okeys # {}) => (out.op # "Bind")
 OperBound == Cardinality(okeys) <= 2
